@@ -22,6 +22,8 @@ static REFUSED: AtomicUsize = AtomicUsize::new(0);
 static TOTAL: AtomicUsize = AtomicUsize::new(0);
 
 pub const HARD_CAP: u64 = 256 << 20;
+/// set while the harness itself maps its one multi-GiB zero buffer (see `huge_buffer`)
+static ALLOW_HUGE: AtomicBool = AtomicBool::new(false);
 
 #[inline]
 fn note(size: usize) -> bool {
@@ -34,7 +36,7 @@ fn note(size: usize) -> bool {
             LARGEST_OVER.fetch_max(size, Ordering::Relaxed);
         }
     }
-    if size as u64 > HARD_CAP {
+    if size as u64 > HARD_CAP && !ALLOW_HUGE.load(Ordering::Relaxed) {
         REFUSED.fetch_add(1, Ordering::Relaxed);
         return false;
     }
@@ -98,4 +100,14 @@ pub fn total_calls() -> u64 {
 }
 pub fn refused() -> u64 {
     REFUSED.load(Ordering::Relaxed) as u64
+}
+
+/// A zero-filled buffer of `len` bytes that costs no memory until touched (the allocator maps fresh zero pages):
+/// lets native 64-bit runs hand the crate slices longer than 4 GiB. The hard cap is lifted for this one request.
+#[cfg(all(target_pointer_width = "64", not(miri)))]
+pub fn huge_zeroed(len: usize) -> Vec<u8> {
+    ALLOW_HUGE.store(true, Ordering::SeqCst);
+    let v = vec![0u8; len];
+    ALLOW_HUGE.store(false, Ordering::SeqCst);
+    v
 }
